@@ -344,6 +344,49 @@ def judge_composite(res, bv, m, t, action, av, cell, replay):
         res.skip('unspecified:' + cell[2])
 
 
+def _plain_list(x):
+    return isinstance(x, list) and all(isinstance(y, (int, float, str, bool, bytes)) for y in x)
+
+
+def seq_impostors(m, list_rt, items):
+    """Python values that hold acceptable items for the list type but are not lists or tuples: only the
+    container kind is wrong.  Items must be plain scalars (so that no AV has to be built)."""
+    import collections
+    out = []
+    it = list_rt.args['item']
+    irt, _ = m.resolve_alias(it)
+    lo = list_rt.args.get('min_items') or 0
+    hi = list_rt.args.get('max_items')
+    if items and all(isinstance(x, (int, float, str, bool, bytes)) for x in items):
+        out.append(('deque_for_list', collections.deque(items)))
+        out.append(('iterator_for_list', iter(list(items))))
+        out.append(('dict_keyed_by_items_for_list', dict.fromkeys(items)))
+        try:
+            if len(set(items)) == len(items):
+                out.append(('frozenset_for_list', frozenset(items)))
+        except TypeError:
+            pass
+    if irt.kind == 'prim' and irt.name in PRIM_INTS:
+        n = max(lo, 1) if hi is None else max(lo, min(hi, 2))
+        cands = [x for x in range(0, 256) if typepred.verdict(m, it, x) == typepred.IN][:max(n, 1)]
+        if len(cands) >= n and n >= 1:
+            out.append(('bytes_for_list', bytes(cands[:n])))
+            out.append(('bytearray_for_list', bytearray(cands[:n])))
+            out.append(('memoryview_for_list', memoryview(bytes(cands[:n]))))
+        for start in (0, 1, -1):
+            r = range(start, start + n)
+            if n and all(typepred.verdict(m, it, x) == typepred.IN for x in r):
+                out.append(('range_for_list', r))
+                break
+    if irt.kind == 'prim' and irt.name == 'String':
+        n = max(lo, 1) if hi is None else max(lo, min(hi, 2))
+        for ch in 'a0Z-':
+            if typepred.verdict(m, it, ch) == typepred.IN:
+                out.append(('str_for_list', ch * n))
+                break
+    return out
+
+
 def neighbours(m, t, av, rnd, pkg):
     """One-step-invalid (or differently-valid) neighbours of a valid AV at type t."""
     out = []
@@ -364,9 +407,29 @@ def neighbours(m, t, av, rnd, pkg):
             out.append(('element_wrong_kind', av[:-1] + [Obj()]))
             out.append(('tuple_for_list', tuple(av)))
         out.append(('scalar_for_list', 5))
+        for nm, pv in seq_impostors(m, rt, av):
+            out.append((nm, Raw(pv, NOT_AV)))
+        # a list nested one level down (list of lists) given as something that is not a list
+        if irt.kind == 'list' and av and all(_plain_list(x) for x in av):
+            for nm, pv in seq_impostors(m, irt, av[0]):
+                out.append(('nested_' + nm, Raw([pv] + [list(x) for x in av[1:]], NOT_AV)))
     elif rt.kind == 'map' and isinstance(av, dict):
         out.append(('non_string_key', dict(av, **{}) | {5: next(iter(av.values()))} if av else {5: None}))
         out.append(('list_for_map', []))
+        vrt, _ = m.resolve_alias(rt.args['value'])
+        if vrt.kind == 'list' and all(x is None or _plain_list(x) for x in av.values()):
+            for k0, v0 in av.items():
+                if isinstance(v0, list):
+                    for nm, pv in seq_impostors(m, vrt, v0):
+                        out.append(('map_value_' + nm, Raw({**{k: (list(x) if isinstance(x, list) else x)
+                                                               for k, x in av.items()}, k0: pv}, NOT_AV)))
+                    break
+        if all(isinstance(x, (int, float, str, bool, bytes)) or x is None for x in av.values()):
+            import collections
+            import types
+            out.append(('mappingproxy_for_map', Raw(types.MappingProxyType(dict(av)), NOT_AV)))
+            out.append(('userdict_for_map', Raw(collections.UserDict(av), NOT_AV)))
+            out.append(('item_pairs_for_map', Raw(list(av.items()), NOT_AV)))
     elif rt.kind == 'ref':
         d = m.lookup(rt.ns, rt.name)
         others = [x for x in m.defs() if x.kind in ('struct', 'union') and x is not d]
